@@ -24,6 +24,11 @@ Definition flat_bundle (b : name * list (name * Z)) : list (name * Z) :=
 (* the leaf-level ports of the unit: signal-valued ones, then the flattened members of its bundle-valued ones *)
 Definition unit_io (u : unit) : list (name * Z) := u_sigs u ++ concat (map flat_bundle (u_buns u)).
 
+(* the attribute names a module holding clones of the unit's ports has *)
+Definition unit_names (u : unit) : list name := map fst (u_sigs u) ++ map fst (u_buns u).
+
+Definition mem (s : name) (l : list name) : bool := existsb (String.eqb s) l.
+
 Inductive netkey := KPort (p : name) (j : Z) | KChain (k j : Z).
 
 Definition netkey_eqb (x y : netkey) : bool :=
